@@ -70,6 +70,8 @@ class DefUse:
             elif t["k"] == "yield":
                 self.defs.setdefault(t["resume_arg"]["l"], []).append(("yield", b.id, t))
         self.is_closure = body.kind == "Closure"
+        self.follow_accessors = False
+        self.alias_mode = False   # follow only reference-preserving steps (no clone / conversion / out-args)
 
     def slice_operand(self, op, deep=True):
         sl = Slice()
@@ -149,6 +151,8 @@ class DefUse:
                 t = d[2]
                 self._call(t, d[1], sl, seen, deep)
             elif d[0] == "outarg":
+                if self.alias_mode:
+                    continue
                 t = d[2]
                 self._call(t, d[1], sl, seen, deep)
             elif d[0] == "yield":
@@ -165,8 +169,17 @@ class DefUse:
         if c is None and dc is None:
             # call through a fn pointer / closure value
             self._operand(t.get("fop"), sl, seen, deep)
-        if deep or (dc in PASSTHROUGH or c in PASSTHROUGH):
-            for a in t["args"]:
+        follow = deep or (dc in PASSTHROUGH or c in PASSTHROUGH)
+        recv_only = False
+        if self.alias_mode:
+            follow = dc in ALIAS_PASS or c in ALIAS_PASS
+            recv_only = True
+        if not follow and self.follow_accessors:
+            last = (c or dc or "").rsplit("::", 1)[-1]
+            follow = last in REF_ACCESSORS
+            recv_only = True
+        if follow:
+            for a in (t["args"][:1] if recv_only else t["args"]):
                 self._operand(a, sl, seen, deep)
 
     def _rvalue(self, rv, sl, seen, deep, field):
@@ -193,6 +206,19 @@ PASSTHROUGH = {
     "std::convert::Into::into", "std::convert::From::from", "std::convert::AsRef::as_ref",
     "std::borrow::Borrow::borrow", "std::string::ToString::to_string", "std::borrow::ToOwned::to_owned",
     "std::string::String::as_str", "std::vec::Vec::as_slice", "std::option::Option::as_ref",
+}
+
+
+ALIAS_PASS = {
+    "std::ops::Deref::deref", "std::ops::DerefMut::deref_mut", "std::convert::AsRef::as_ref", "std::convert::AsMut::as_mut",
+    "std::borrow::Borrow::borrow", "std::borrow::BorrowMut::borrow_mut", "std::string::String::as_str", "std::vec::Vec::as_slice",
+    "std::option::Option::as_ref", "std::option::Option::as_mut",
+}
+
+REF_ACCESSORS = {
+    "get_mut", "iter_mut", "values_mut", "deref_mut", "as_mut", "entry", "last_mut", "first_mut", "next", "into_iter",
+    "iter", "get", "expect", "unwrap", "branch", "ok_or", "ok_or_else", "as_ref", "deref", "index", "index_mut", "values", "keys",
+    "first", "last", "by_ref", "enumerate",
 }
 
 
